@@ -21,7 +21,7 @@ FIELD_WORSE = -1
 
 
 def _kind(event):
-    if event in ('HJ', 'PV', 'LJ', 'TJ', 'SP', 'DT', 'HT', 'JT', 'WT'):
+    if event.upper() in ('HJ', 'PV', 'LJ', 'TJ', 'SP', 'DT', 'HT', 'JT', 'WT'):
         return 'field'
     return 'timed'
 
@@ -74,6 +74,20 @@ def run(ctx):
             if s >= 1:
                 ctx.nontrivial((g, e, s), case if s in (1, 700, 1500) and e in ('100', 'PV', 'JT') else None)
             ctx.label('timed' if _kind(e) == 'timed' else 'field')
+    # other spellings of the same rows: the scoring key is case-insensitive, so 'f' / 'hj' / 'Hj' name the same row and
+    # the inverse property must hold for them just the same (every 25th target)
+    for g, e in rows:
+        for gs, es in ((g.lower(), e.lower()), (g, e.lower()), (g.lower(), e), (g, e.title())):
+            if (gs, es) == (g, e):
+                continue
+            for s in list(range(-3, 1501, 25)) + [1, 2, 1500]:
+                case = {'kind': 'needed', 'gender': gs, 'event': es, 'target': s}
+                ctx.count()
+                ctx.label('other-spelling')
+                vs = examine(case)
+                for v in vs:
+                    v['sig'] = v['sig'] + ['other-spelling']
+                ctx.violations(vs)
     for g, e in UNKNOWN:
         for s in (-5, 0, 1, 500, 1500):
             case = {'kind': 'needed', 'gender': g, 'event': e, 'target': s, 'unknown': True}
